@@ -1,6 +1,7 @@
 package main
 
 import (
+	"errors"
 	"io"
 	"bytes"
 	"fmt"
@@ -68,6 +69,23 @@ func childOp(args []string) (out string, inputLen int) {
 		}
 	}()
 	switch args[0] {
+	case "rview":
+		// rview URL KIND BODYLEN: the view / view-raw client against a server at URL; BODYLEN is the number of body
+		// bytes that server really sends (the measure of the input)
+		n := int(atoi(args[3]))
+		var err error
+		if args[2] == "viewraw" {
+			err = (&cmd.ViewRawCommand{SrcBase: args[1], SrcRelPath: "x.wsp", ArchiveID: -1, TextOut: ""}).Execute()
+		} else {
+			err = (&cmd.ViewCommand{SrcBase: args[1], SrcRelPath: "x.wsp", ArchiveID: -1, TextOut: ""}).Execute()
+		}
+		switch {
+		case err == nil:
+			return "ok", n
+		case errors.Is(err, os.ErrNotExist):
+			return "notexist", n
+		}
+		return "err", n
 	case "dec":
 		src := unhex(args[2])
 		return decodeKind(args[1], src), len(src)
